@@ -204,7 +204,7 @@ pub fn enumerated(tier: Tier) -> Vec<PoolCase> {
 
 fn groups(g: &mut Groups) {
     g.enumerate("bounded_schedules", enumerated, true, check_case);
-    g.prop("random", 12_000, 600_000, pool::pool_case(4, 4), check_case);
+    g.prop("random", 24_000, 600_000, || pool::pool_case(4, 4), check_case);
     let _ = vensure_unused;
 }
 
